@@ -29,6 +29,10 @@ def gen_instance(rng, *, max_jobs=4, max_machines=4, max_ops=4, flexible=None,
     if rng.random() < recycled:
         # the instance will be assembled from copies of operations that already belonged to another instance
         spec["recycled"] = True
+    elif rng.random() < recycled:
+        # after the instance is built the user derives a what-if variant from deep copies of its jobs (another
+        # layout) and goes on using the original
+        spec["whatif"] = True
     if sparse_ids and rng.random() < sparse_ids:
         # machine ids with gaps and a large maximum: many machines that no operation uses
         stride, off = rng.randint(2, 4), rng.randint(0, 3)
@@ -48,6 +52,18 @@ def gen_instance(rng, *, max_jobs=4, max_machines=4, max_ops=4, flexible=None,
                     k += 1
         spec["shape"] = "huge_durations" if base == HUGE else "huge64_durations"
     return spec
+
+
+def benchmark_spec(name):
+    """Spec of a benchmark instance shipped with the library (read from its data file, not through the library)."""
+    import json
+    import os
+
+    root = os.environ.get("JSL_REPO", "/repo")
+    with open(os.path.join(root, "job_shop_lib", "benchmarking", "benchmark_instances.json")) as f:
+        d = json.load(f)[name]
+    jobs = [[[[m] if isinstance(m, int) else list(m), dur] for m, dur in zip(ms, ds)] for ms, ds in zip(d["machines_matrix"], d["duration_matrix"])]
+    return {"jobs": jobs, "name": name, "shape": "benchmark", "benchmark": name}
 
 
 def _gen_instance(rng, *, max_jobs=4, max_machines=4, max_ops=4, flexible=None,
@@ -152,6 +168,14 @@ def build(spec, name=None, **metadata):
     """Builds a fresh real JobShopInstance from a spec (new Operation objects)."""
     from job_shop_lib import JobShopInstance, Operation
 
+    if spec.get("benchmark"):
+        # the user loads a benchmark, derives a sub-instance from its jobs (which renumbers the operations of that
+        # first copy), and later loads the same benchmark again for the run proper
+        from job_shop_lib.benchmarking import load_benchmark_instance
+
+        first = load_benchmark_instance(spec["benchmark"])
+        JobShopInstance(first.jobs[1:], name="sub")
+        return load_benchmark_instance(spec["benchmark"])
     jobs = []
     for job in spec["jobs"]:
         row = []
@@ -167,7 +191,13 @@ def build(spec, name=None, **metadata):
 
         donor = JobShopInstance([[Operation(0, 1), Operation(0, 2)]] + jobs[::-1], name="donor")
         jobs = [[copy.deepcopy(op) for op in job] for job in donor.jobs[1:][::-1]]
-    return JobShopInstance(jobs, name=name or spec.get("name", "sim"), **metadata)
+    inst = JobShopInstance(jobs, name=name or spec.get("name", "sim"), **metadata)
+    if spec.get("whatif"):
+        import copy
+
+        JobShopInstance([[Operation(0, 1)]] + [copy.deepcopy(job) for job in inst.jobs[::-1]], name="what-if")
+        JobShopInstance([[Operation(0, 2)]] + copy.deepcopy(inst).jobs[::-1], name="what-if-2")
+    return inst
 
 
 def as_tuple(spec):
@@ -179,6 +209,11 @@ def shrink_candidates(spec):
     jobs = spec["jobs"]
     if spec.get("recycled"):
         yield {k: v for k, v in spec.items() if k != "recycled"}
+    if spec.get("whatif"):
+        yield {k: v for k, v in spec.items() if k != "whatif"}
+    if spec.get("benchmark"):
+        yield {k: v for k, v in spec.items() if k != "benchmark"}
+        return
     base = {k: v for k, v in spec.items() if k != "jobs"}
     # drop a job
     if len(jobs) > 1:
